@@ -111,7 +111,6 @@ Lemma get_child_leaf n q : children n = [] -> q <> [] -> get_child n q = None.
 Proof. intros H Hq. destruct q as [|i q]; [contradiction|]. cbn. rewrite H. reflexivity. Qed.
 
 (* ---- the three interfaces of Node::new *)
-Definition std3 (k : iface) : bool := match k with Peer | Intro | Props => true | _ => false end.
 
 Lemma ik_not_std3 k : std3 (ik k) = false.
 Proof. destruct k; reflexivity. Qed.
